@@ -3,6 +3,7 @@
   ./check selftest determinism [--props C09,C10] [--n 200]
   ./check selftest sensitivity [--only name-substring] [--runs N] [--dir DIR]
   ./check selftest evidence
+  ./check selftest model            # the simulator's own trusted base, checked against brute force
 """
 import argparse
 import glob
@@ -34,6 +35,8 @@ def main(argv):
         return sensitivity(argv[1:])
     if kind == "evidence":
         return evidence(argv[1:])
+    if kind == "model":
+        return model(argv[1:])
     print(__doc__)
     return 2
 
@@ -264,3 +267,150 @@ def evidence(argv):
             "jsonschema.validate(m, json.load(open('/root/.vp/MANIFEST.schema.json'))); print('valid MANIFEST.json')\n"
             "sys.exit(1 if bad else 0)\n" % (VERIF, VERIF))
     return subprocess.run(["python3-vt", "-c", code]).returncode
+
+
+# --------------------------------------------------------------------------- trusted base
+
+def model(argv):
+    """Checks of the pieces the oracles trust, each against an independent brute-force computation:
+    the kbmag writer against the independent reader, the simulated disk's byte delivery under short
+    reads, the path enumerator / pruning / BFS of the automaton model, the projective row comparison,
+    and the exact matrix products of W-ENUM."""
+    import io
+    import itertools
+    import random
+    import numpy as np
+    core.bootstrap_repo(os.environ.get("VERIF_REPO", "/repo"))
+    from . import simfs, w_fsa, w_enum, w_obj
+    rng = random.Random(12345)
+    eng = w_fsa.Engine()
+    fails = []
+
+    # 1. writer -> independent reader round trip over random tables and layouts
+    n_rt = 0
+    for _ in range(3000):
+        cfg = {"nverts": 5, "vkind": "int", "alpha": "single", "nlabels": 3}
+        t = eng._gen_table(rng, cfg)
+        lay = eng._gen_layout(rng)
+        txt = simfs.kbmag_text(t, lay)
+        back = simfs.read_table(txt.replace("\r\n", "\n"))
+        n_rt += 1
+        if back != {"names": [str(x) for x in t["names"]], "n": t["n"],
+                    "transitions": t["transitions"], "initial": t["initial"]}:
+            fails.append("kbmag writer/reader round trip: %r %r" % (t, lay))
+            break
+
+    # 2. simulated disk delivers exactly the file's bytes under any short-read plan
+    n_disk = 0
+    for _ in range(2000):
+        data = bytes(rng.randrange(32, 127) for _ in range(rng.randrange(0, 700)))
+        plan = simfs.FaultPlan(None, [rng.choice([1, 2, 3, 7, 64, 5000]) for _ in range(rng.randint(1, 4))],
+                               rng.choice([1, 2, 5, 16, 128, 8192]))
+        f = io.TextIOWrapper(io.BufferedReader(simfs.SimRaw(data, plan, "t"), buffer_size=plan.bufsize),
+                             encoding="utf-8", newline=None)
+        mode = rng.choice(["read", "lines", "chunks"])
+        if mode == "read":
+            got = f.read()
+        elif mode == "lines":
+            got = "".join(f)
+        else:
+            got = ""
+            while True:
+                c = f.read(rng.choice([1, 10, 100]))
+                if not c:
+                    break
+                got += c
+        f.close()
+        n_disk += 1
+        if got != data.decode("utf-8") or plan.opened != plan.closed:
+            fails.append("simulated disk delivered different bytes (%s)" % mode)
+            break
+
+    # 3. automaton model: path enumeration, pruning, BFS against brute force
+    n_aut = 0
+    for _ in range(1500):
+        V = list(range(rng.randint(1, 5)))
+        A = ["a", "b", "c"][:rng.randint(1, 3)]
+        E = set()
+        for t_ in V:
+            for l in A:
+                if rng.random() < 0.5:
+                    E.add((t_, rng.choice(V), l))
+        h = w_fsa.Handle("x", None, V, E, [V[0]], "test")
+        adj = h.adj()
+        for s0 in V:
+            lv = eng._lang(adj, s0, 3)
+            got = sorted(("".join(p), v) for l in lv for p, v in l)
+            want = []
+            for n in range(4):
+                for w in itertools.product(A, repeat=n):
+                    v = s0
+                    ok = True
+                    for l in w:
+                        nxt = [hd for (t_, hd, l2) in E if t_ == v and l2 == l]
+                        if not nxt:
+                            ok = False
+                            break
+                        v = nxt[0]
+                    if ok:
+                        want.append(("".join(w), v))
+            if got != sorted(want):
+                fails.append("path enumerator differs from brute force")
+        # pruning = greatest fixed point: brute force over all subsets
+        V2, E2 = eng._prune(set(V), set(E))
+        best = set()
+        for k in range(len(V), -1, -1):
+            found = False
+            for sub in itertools.combinations(V, k):
+                sub = set(sub)
+                Es = {e for e in E if e[0] in sub and e[1] in sub}
+                if all(any(e[0] == v for e in Es) and any(e[1] == v for e in Es) for v in sub):
+                    best = sub
+                    found = True
+                    break
+            if found:
+                break
+        if V2 != best:
+            fails.append("pruning is not the largest sub-automaton without dead ends: %r vs %r" % (V2, best))
+        dist = eng._bfs(h, V[0])
+        # Bellman-Ford style check
+        for (t_, hd, l) in E:
+            if t_ in dist and (hd not in dist or dist[hd] > dist[t_] + 1):
+                fails.append("BFS distances violate the triangle inequality")
+        n_aut += 1
+        if fails:
+            break
+
+    # 4. projective comparison
+    n_proj = 0
+    for _ in range(3000):
+        d = rng.randint(2, 4)
+        u = np.array([rng.uniform(-1, 1) for _ in range(d)])
+        c = rng.choice([-3.0, 1e-6, 1e6, 0.5])
+        same = w_obj.rows_proj_equal(u[None], (c * u)[None]) < 0
+        pos = w_obj.rows_proj_equal(u[None], (c * u)[None], positive=True) < 0
+        v = u + np.array([rng.uniform(-1, 1) for _ in range(d)]) * 1e-3
+        cross = np.linalg.norm(u) ** 2 * np.linalg.norm(v) ** 2 - np.dot(u, v) ** 2
+        diff = w_obj.rows_proj_equal(u[None], v[None]) >= 0
+        n_proj += 1
+        if not same or pos != (c > 0) or diff != (cross > 1e-12 * np.linalg.norm(u) ** 2 * np.linalg.norm(v) ** 2):
+            fails.append("projective row comparison wrong for %r %r" % (u, c))
+            break
+
+    # 5. exact unimodular matrices: M @ Mi == I in exact arithmetic
+    n_uni = 0
+    for _ in range(2000):
+        n = rng.randint(1, 4)
+        M, Mi = w_enum.unimodular(rng, n, rng.random() < 0.3)
+        P = w_enum.dec(w_enum.enc(M)).dot(w_enum.dec(w_enum.enc(Mi)))
+        n_uni += 1
+        if not all(P[i, j] == (1 if i == j else 0) for i in range(n) for j in range(n)):
+            fails.append("unimodular generator and its recorded inverse do not multiply to I")
+            break
+
+    print("model self-test: %d record round trips, %d simulated reads, %d automaton models, %d projective "
+          "comparisons, %d unimodular pairs -> %s" % (n_rt, n_disk, n_aut, n_proj, n_uni,
+                                                       "OK" if not fails else "FAILED"))
+    for f in fails[:5]:
+        print("  " + f)
+    return 0 if not fails else 1
